@@ -250,6 +250,11 @@ MIRSYM("query_entry_points", ["C03", "C19", "C05"],
        "database: index 7 with items 1 and u32::MAX, decoys (7, Tree, 1), (6, Item, 2), (8, Item, 2); ids 0, 1, 2, u32::MAX; dimension 1..=300 and vector length 0..=400 symbolic; nns_by_leaf replaced by a recorder; f32 and quantised leaves",
        _lazy("e2_query"), site="QueryBuilder::by_item / by_vector")
 
+MIRSYM("dot_product_preprocess", ["C05", "C07"],
+       "DotProduct::preprocess (run by every build) keeps every item key of the index with the same vector, rewrites only the header to (extra_dim = sqrt(max_norm^2 - norm^2), norm = max_norm^2) with max_norm the running f32::max of the norms, and touches no other key of the database (tree nodes, marks, metadata, neighbouring indexes)",
+       "databases with 0, 1 and 3 items (ids 1, 5, u32::MAX) in index 7 next to indexes 6 and 8; squared norms = symbolic f32 of any bit pattern (uninterpreted dot product); the iterator closure = a cursor over the index's item keys",
+       _lazy("e2_dot"), site="DotProduct::preprocess")
+
 MIRSYM("distance_kernels_structure", ["C11"],
        "for every length n the value computed by spaces::simple::{dot_product, euclidean_distance} on each dispatch path (AVX+FMA, SSE, scalar) equals sum_i a_i*b_i resp. sum_i (a_i-b_i)^2 modulo re-association of the sum: every index used exactly once, right pairing, right remainder, no out-of-bounds read",
        "n in 1..=40 and around every multiple of 16/32 up to 300 (thorough: all n in 1..=300); element values symbolic; float + as real addition, - and * uninterpreted (multiplication commutative); CPU features symbolic",
